@@ -489,6 +489,24 @@ class C10(Prop):
                     yield {"op": "chain", "array": arr1, "_expect": {"dims": names, "labels": labels},
                            "steps": [{"fn": "repeat", "values": v, "axis": spell(i, cnt), "count": cnt, "kwaxis": cnt != 2}]}
 
+    def systematic_singletons(self):
+        """deterministic family (regression of seeded4/C10-1, whose detection had depended on the random stream): an array with
+        TWO singleton dimensions broadcast onto a target that lacks one of them and lists the other with its single label, next
+        to a new dimension - the kept singleton must keep its label; every `how`, every order of the target"""
+        ax = lambda n, k, labs: {"name": n, "kind": k, "labels": [gen.enc(v) for v in labs]}
+        arr = {"axes": [ax("w", "i", [7]), ax("y", "O", ["r3"]), ax("x", "f", [0.5, 1.5, 2.5])], "vkind": "f", "attrs_py": {"title": "T"}}
+        for keep, drop in (("w", "y"), ("y", "w")):
+            kept = [a for a in arr["axes"] if a["name"] != drop]
+            new = ax("z", "i", [1990, 1991])
+            for order in itertools.permutations(kept + [new]):
+                for how in ("list", "odict", "dimarray"):
+                    yield {"op": "chain", "array": arr, "steps": [{"fn": "broadcast", "target": [dict(t) for t in order], "how": how}],
+                           "_expect": {"dims": [t["name"] for t in order], "labels": [list(t["labels"]) for t in order]}}
+            # the same through a squeeze of the other singleton first (two steps)
+            yield {"op": "chain", "array": arr, "steps": [{"fn": "squeeze", "axis": ["name", drop]},
+                                                           {"fn": "broadcast", "target": [dict(t) for t in kept + [new]], "how": "list"}],
+                   "_expect": {"dims": [t["name"] for t in kept + [new]], "labels": [list(t["labels"]) for t in kept + [new]]}}
+
     def systematic_positions(self):
         """every function that takes a dimension position, with positions just outside [-ndim, ndim) (and the boundary
         positions -ndim, ndim-1 just inside), alone and next to a second bad key of another kind, on rank 0-3"""
@@ -552,6 +570,8 @@ class C10(Prop):
 
     def gen(self, rng, tier):
         for c in self.systematic():
+            yield c
+        for c in self.systematic_singletons():
             yield c
         for c in self.systematic_positions():
             yield c
